@@ -666,7 +666,7 @@ fn mode_c03long(args: &std::collections::HashMap<String, String>) -> Value {
     // accumulates in one reader over millions of calls): the publication that ends the idle
     // stretch must be returned by the very next call.
     let mut idle_streaks = 0u64;
-    for (si, streak) in [100_000u64, 1_100_000, 5_000_000, 20_000_000].iter().enumerate() {
+    for (si, streak) in [100_003u64, 1_100_017, 5_000_011, 20_000_033, 4_194_305, 8_388_611].iter().enumerate() {
         if (si as u64) % nshards != shard {
             continue;
         }
